@@ -446,6 +446,19 @@ func (w *World) ReleaseHeld() int {
 	return n
 }
 
+// AnyParked tells whether a call accepted by match is waiting for the scheduler (usable from a Planned.Match: "fail this
+// write while that other write of the same operation is in flight").
+func (w *World) AnyParked(match func(*Call) bool) bool {
+	w.mu.Lock()
+	defer w.mu.Unlock()
+	for _, c := range w.parked {
+		if match(c) {
+			return true
+		}
+	}
+	return false
+}
+
 // HeldCalls is the number of calls currently frozen.
 func (w *World) HeldCalls() int {
 	w.mu.Lock()
